@@ -518,11 +518,15 @@ def templates():
     t.append(("bound-fb-susp", d(B(1, Tu(p(T("L1")), S(2, p(T("i")))), p(T("C1"))))))
     t.append(("append", d(Tu(p(T("h")), A(S(1, p(T("x")))), E(2, T("t"))))))
     t.append(("append-sib", Tu(A(S(1, p(T("x")))), S(2, E(2, T("y"))))))
+    # the appended builder starts with an out-of-order chunk and also holds an in-order one (seed C07-10)
+    t.append(("append-ooo-async", d(Tu(p(T("h")), A(Tu(B(1, p(T("L1")), p(T("C1"))), S(2, p(T("x"))))), E(2, T("t"))))))
+    t.append(("append-ooo-async2", d(Tu(p(T("h")), A(Tu(B(1, p(T("L1")), p(T("C1"))), p(T("m")), S(2, p(T("x"))), B(3, p(T("L3")), p(T("C3"))))), E(2, T("t"))))))
     t.append(("append-text", d(Tu(T("a"), A(p(T("x"))), T("c")))))
     t.append(("raw", Tu(RS("<i>r</i>"), RA(1, Tu(RS("<u>s</u>"), RA(2, RS("<em>t</em>")))), RS("<s>u</s>"))))
     # the real leptos components (oracle only, no model)
     t.append(("l-eb", d(Tu(p(T("h")), EB(S(1, p(T("x")))), E(2, T("t"))))))
     t.append(("l-eb-sib", Tu(EB(S(1, p(T("x")))), S(2, E(2, T("y"))))))
+    t.append(("l-eb-ooo-async", d(Tu(p(T("h")), EB(Tu(SU(E(2, T("L1")), S(1, E(3, T("C1")))), S(2, p(T("x"))))), E(2, T("t"))))))
     t.append(("l-susp", d(Tu(p(T("h")), SU(E(2, T("L1")), S(1, E(3, T("C1")))), E(2, T("t"))))))
     t.append(("l-susp2", d(SU(E(2, T("L1")), Tu(S(1, E(3, T("C1"))), p(T("m")), S(2, E(3, T("C2"))))))))
     t.append(("l-susp-nest", d(SU(p(T("L1")), Tu(S(1, p(T("C1"))), SU(E(2, T("L2")), S(2, E(3, T("C2")))))))))
